@@ -5,6 +5,7 @@ import (
 	"go/constant"
 	"go/token"
 	"go/types"
+	"sort"
 	"strings"
 
 	"golang.org/x/tools/go/ssa"
@@ -23,6 +24,7 @@ func init() {
 			"R3 old key retired: rotate.Key returns nil only after the old key was destroyed or the previous primary version was found empty (ESP, with the rules of C10). " +
 			"R4 profile: NotAfter is NotBefore plus exactly RootValidDays for a CA / self-issued template and SignValidDays otherwise, per branch on IsCA / Issuer == nil; where a producer sets KeyUsage, the CA arm has IsCA=true and CertSign|CRLSign and the other arm DigitalSignature. " +
 			"R5 default serial: the rotate command stores the default serial from sign/ops.NextSigningKeySerial, which returns parsed-subject-serial + the constant 1 of the primary signing certificate. " +
+			"R7 a key manager that embeds another implementation of keys.ManagerInterface and overrides its Create* methods also overrides DestroyKeyVersion and Wipeout (none of them is taken from the embedded manager by promotion). " +
 			"R6 profile ownership: every store into a field of an x509.Certificate in production code writes an object allocated by the storing function (or by all callers of an unexported helper); a template returned by a producer is never adjusted afterwards. " +
 			"Not covered: serial arithmetic over histories, key-name uniqueness across wipeouts, wipeout completeness, which key can sign.",
 		Assumptions: []string{"go/types, go/ssa", "math/big", "crypto/x509 template semantics"},
@@ -383,6 +385,81 @@ func runC12(c *Ctx) {
 		}
 	}
 	c.S.Floor("R6", "stores into x509.Certificate fields", 8, nCertStores)
+
+	// ---------------- R7 key-manager overrides come in pairs ----------------
+	// A key manager that embeds another implementation of keys.ManagerInterface and overrides its key-creating methods
+	// (because it keeps the key material somewhere else too: files, a service) must also override DestroyKeyVersion
+	// and Wipeout; with one of them merely promoted from the embedded manager, a "destroyed" key survives wherever the
+	// outer manager keeps it and can sign again.
+	{
+		var mi *types.Interface
+		if kp := c.P.Pkg("keys"); kp != nil {
+			if o := kp.Pkg.Scope().Lookup("ManagerInterface"); o != nil {
+				mi, _ = o.Type().Underlying().(*types.Interface)
+			}
+		}
+		nEmb := 0
+		if mi != nil {
+			var pkgPaths []string
+			for path := range c.P.SSAPkgs {
+				if strings.HasPrefix(path, load.RootModule) {
+					pkgPaths = append(pkgPaths, path)
+				}
+			}
+			sort.Strings(pkgPaths)
+			for _, path := range pkgPaths {
+				sp := c.P.SSAPkgs[path]
+				for _, nm := range sp.Pkg.Scope().Names() {
+					tn, ok := sp.Pkg.Scope().Lookup(nm).(*types.TypeName)
+					if !ok {
+						continue
+					}
+					st, ok := tn.Type().Underlying().(*types.Struct)
+					if !ok || !types.Implements(types.NewPointer(tn.Type()), mi) {
+						continue
+					}
+					embeds := false
+					for i := 0; i < st.NumFields(); i++ {
+						f := st.Field(i)
+						if f.Embedded() && (types.Implements(f.Type(), mi) || types.Implements(types.NewPointer(f.Type()), mi)) {
+							embeds = true
+						}
+					}
+					if !embeds {
+						continue
+					}
+					nEmb++
+					ms := types.NewMethodSet(types.NewPointer(tn.Type()))
+					own := map[string]bool{}
+					for i := 0; i < mi.NumMethods(); i++ {
+						m := mi.Method(i)
+						if sel := ms.Lookup(m.Pkg(), m.Name()); sel != nil && len(sel.Index()) == 1 {
+							own[m.Name()] = true
+						}
+					}
+					creates := false
+					for n := range own {
+						if strings.HasPrefix(n, "Create") {
+							creates = true
+						}
+					}
+					var missing []string
+					if creates {
+						for _, n := range []string{"DestroyKeyVersion", "Wipeout"} {
+							if !own[n] {
+								missing = append(missing, n)
+							}
+						}
+					}
+					name := strings.TrimPrefix(path, load.RootModule+"/") + "." + nm
+					c.S.Check(len(missing) == 0, "R7", name+":lifecycle overrides", c.pos(tn.Pos()),
+						"creation and destruction are overridden together (or neither)",
+						fmt.Sprintf("%s overrides the key-creating methods of the manager it embeds but takes %v from it by promotion: a key it created and keeps outside the embedded manager is not destroyed there and can sign again", name, missing))
+				}
+			}
+		}
+		c.S.Floor("R7", "key managers that embed another key manager", 1, nEmb)
+	}
 
 	// ---------------- R5 default serial ----------------
 	next := c.fn("R5", "sign/ops", "NextSigningKeySerial")
